@@ -272,8 +272,33 @@ func C01(p *ir.Program, r *report.R) {
 		r.Extra["handleTimeout_table"] = rowsSample(rows, 18)
 	}
 
+	// ---- a precommit for a block carries the lock forward to this round ---------------------------------
+	// Both block-precommit branches of enterPrecommit (re-lock on the locked block, lock on the proposal
+	// block) set cs.LockedRound = round before signing: a lock that keeps an older round number is
+	// released by a delayed polka of a round in between (LockedRound < vote.Round in addVote).
+	{
+		ep := p.Func("consensus", "ConsensusState.enterPrecommit")
+		isLR := func(in ssa.Instruction) bool {
+			st, ok := in.(*ssa.Store)
+			return ok && ir.Render(st.Addr) == "&cs.RoundState.LockedRound" && ir.Render(st.Val) == "round"
+		}
+		n := 0
+		for _, call := range ir.Calls(ep, signAddVoteG) {
+			if Arg(call, 2) == "nil" {
+				continue
+			}
+			n++
+			in := call.(ssa.Instruction)
+			found, _, tr := ir.FindPath(ir.PathQuery{From: ir.Entry(ep), Target: func(x ssa.Instruction) bool { return x == in }, Avoid: isLR})
+			r.Check("K2", csT+"enterPrecommit/precommit block/lock-round-refreshed", p.InstrPos(in), !found, fmt.Sprintf("every path to a precommit for a block passes cs.LockedRound = round; path without it: %v", tr))
+		}
+		c.MustFind("K2", csT+"enterPrecommit/precommit block", ep, n, "precommit for a block")
+	}
+
 	// ---- quorum intersection premises (decided in detail under C03) ---------------------------
 	quorumRules(c)
+	// a commit decided elsewhere is adopted (fast sync, last commit of a block) only through VerifyCommit
+	verifyCommitTally(c)
 }
 
 // c01EntryGuards interprets the first guard of each enter* function over
